@@ -197,7 +197,11 @@ pub fn random_flags(rng: &mut Rng, prog: &Program) -> Vec<String> {
     if !names.is_empty() {
         if rng.chance(1, 4) { f.push("--blocklist-type".into()); f.push(rng.pick(&names).clone()); }
         if rng.chance(1, 4) { f.push("--opaque-type".into()); f.push(rng.pick(&names).clone()); }
-        if rng.chance(1, 5) { f.push("--allowlist-type".into()); f.push(format!("{}|{}", rng.pick(&names), rng.pick(&names))); }
+        if rng.chance(1, 4) {
+            f.push("--allowlist-type".into());
+            f.push(format!("{}|{}|{}", rng.pick(&names), rng.pick(&names), rng.pick(&names)));
+            if rng.chance(1, 2) { f.push("--no-recursive-allowlist".into()); }
+        }
         if rng.chance(1, 6) { f.push("--no-copy".into()); f.push(rng.pick(&names).clone()); }
         if rng.chance(1, 6) { f.push("--no-default".into()); f.push(rng.pick(&names).clone()); }
         if rng.chance(1, 8) { f.push("--no-hash".into()); f.push(rng.pick(&names).clone()); }
